@@ -21,7 +21,8 @@ PROP = {
         "Wm.RouterLife.running_after_all_subscribed", "Wm.RouterLife.runhandlers_once",
         "Wm.RouterLife.started_implies_stoppable", "Wm.RouterLife.stop_isolated", "Wm.RouterLife.stop_ends_handler",
         "Wm.RouterLife.second_run_errors", "Wm.RouterLife.self_close_progress", "Wm.RouterLife.run_returned_means_closed",
-        "Wm.RouterLife.cancel_winds_handlers_down",
+        "Wm.RouterLife.cancel_winds_handlers_down", "Wm.RouterLife.runhandlers_nil_means_all_started",
+        "Wm.RouterLife.runhandlers_error_is_retried",
         "Wm.RouterLife.Old.started_before_stopfn_witness", "Wm.RouterLife.Old.watcher_lost_wakeup_witness",
     ],
     "tie_theorems": [],
@@ -35,7 +36,10 @@ PROP = {
             "Stop, wait Stopped, cancel Run ctx, Close, second Run} with 1..5 handlers (scripted subscribers whose Subscribe calls are "
             "counted; GoChannel for delivery right after Running()), handlers added before and after Run; Stop issued while RunHandlers is "
             "parked at runhandlers.started (right after Started() closed); a router started empty with the self-close watcher parked "
-            "before its select while the first handler is added; stop-one / stop-all / cancel families; seeded random programs with "
+            "before its select while the first handler is added; stop-one / stop-all / cancel families; a scripted subscriber whose first Subscribe call(s) fail, then RunHandlers again (a RunHandlers "
+            "that returned nil must have started every handler added before it: one successful Subscribe, Started() closed - also when Run "
+            "itself failed on the Subscribe error); a redundant RunHandlers held at its own log line (handlersLock taken) while Close x2 "
+            "arrives or the Run context is cancelled - every call must return, Run with nil; seeded random programs with "
             "yield injection. Every trace goes through the C10 monitor (clauses of the statement); traces marked for conformance must be "
             "traces of the Lean model RouterLife. Non-trivial = a handler was started and a Stop / RunHandlers / cancel / second Run occurs.",
     "trusted_base": [
